@@ -361,6 +361,33 @@ func (fx *FnExec) siteEnv(st *State, fr *frame, site ssa.Instruction) *evalEnv {
 			}
 		}
 	}
+	// index-style loops around the site (see indexAlias): only when no
+	// enclosing loop has a rangeindex of its own and exactly one qualifies
+	own := false
+	var idxLoops []*loopHdr
+	for _, h := range li.headers {
+		if !h.body[site.Block()] {
+			continue
+		}
+		hasOwn := false
+		for _, ins := range h.header.Instrs {
+			phi, ok := ins.(*ssa.Phi)
+			if !ok {
+				break
+			}
+			if phi.Comment == "rangeindex" {
+				hasOwn = true
+			}
+		}
+		if hasOwn {
+			own = true
+		} else {
+			idxLoops = append(idxLoops, h)
+		}
+	}
+	if !own && len(idxLoops) == 1 {
+		fx.indexAlias(env, st, idxLoops[0])
+	}
 	return env
 }
 
